@@ -1115,6 +1115,41 @@ def check_request_layers(rep, rule, rule_identity=None):
         bad = [l.text for l in flat if not plain(l)]
         rep.check(rule_identity, fkey(fi, 'identity'), not bad, 'values are moved between dicts, never passed through a call' if not bad else
                   'values pass through %s before injection' % bad, app, exe[0])
+    # the per-route parameter dict is built afresh for every candidate route: values of a route that matched the
+    # path but was skipped (method mismatch, non-breaking error) must not leak into later routes
+    from .. import effects as _eff
+    loops = [s for s in stmts_of(fi.node) if isinstance(s, ast.For) and any(exe[0] is x for x in ast.walk(s))]
+    if len(loops) == 1:
+        lp = loops[0]
+        inloop = [s for s in ast.walk(lp) if isinstance(s, ast.Assign) and norm(s.targets[0]) == pv]
+        ok = len(inloop) >= 1 and all((isinstance(s.value, ast.Call) and call_name(s.value) == 'dict') or isinstance(s.value, ast.Dict)
+                                      for s in inloop)
+        rep.check(rule, fkey(fi, 'fresh params per route'), ok,
+                  'the parameter dict handed to route.execute is constructed anew for every candidate route' if ok else
+                  '%s is not a freshly constructed dict per route (it aliases a dict that outlives the iteration): URL parameters of a '
+                  'skipped route leak into later routes' % pv, app, inloop[0] if inloop else lp)
+        outer = set()
+        for s in stmts_of(fi.node):
+            if isinstance(s, ast.Assign) and not any(s is x for x in ast.walk(lp)):
+                for t in s.targets:
+                    if isinstance(t, ast.Name):
+                        outer.add(t.id)
+        layer_names = set(l.text for l in ls if l.kind == 'source' and isinstance(l.node, ast.Name)) | {pv}
+        leaks = []
+        for st_ in lp.body:
+            for n_ in ast.walk(st_):
+                pass
+        class _F(object):
+            pass
+        fake = ast.FunctionDef(name='loop', args=fi.node.args, body=lp.body, decorator_list=[], returns=None, type_comment=None, type_params=[])
+        for e in _eff.effects_in(fake):
+            if e.root in outer and e.root in layer_names and not any(isinstance(s, ast.Assign) and norm(s.targets[0]) == e.root
+                                                                     for s in ast.walk(lp)):
+                leaks.append(e)
+        rep.check(rule, fkey(fi, 'no loop-carried parameter dict'), not leaks,
+                  'no parameter dict built before the loop is mutated inside it' if not leaks else
+                  'a dict built once per request (%s) is mutated inside the route loop: one route\'s parameters are still there for the next'
+                  % sorted(set(e.root for e in leaks)), app, leaks[0].node if leaks else lp)
     pp = [s for s in stmts_of(fi.node) if isinstance(s, ast.Assign) and norm(s.targets[0]) == 'path_params']
     ok = len(pp) == 1 and isinstance(pp[0].value, ast.Call) and norm(pp[0].value.func).endswith('.match_path')
     rep.check(rule, fkey(fi, 'path_params source'), ok, 'URL parameters are the converted values returned by route.match_path' if ok else
